@@ -2631,6 +2631,17 @@ static iwrc _jbl_target_apply_patch(struct jbl_node *target, const struct jbl_pa
         return JBL_ERROR_PATCH_NOVALUE;
       }
       _jbl_copy_node_data(target, value); // `target` keeps its own name and sibling links: it may be a member of a larger tree
+    } else if ((op == JBP_MOVE) || (op == JBP_COPY)) { // rfc6902 4.4, 4.5: the value at `from` becomes the whole document
+      if (!ex->from) {
+        return JBL_ERROR_PATCH_INVALID;
+      }
+      if (ex->from->cnt > 0) { // (from == "" is the document onto itself)
+        value = _jbl_node_find(target, ex->from, 0, ex->from->cnt);
+        if (!value) {
+          return JBL_ERROR_PATH_NOTFOUND;
+        }
+        _jbl_copy_node_data(target, value); // the rest of the old document is not reachable any more
+      }
     }
   } else { // Not a root
     if ((op == JBP_REMOVE) || (op == JBP_REPLACE)) {
